@@ -306,3 +306,15 @@ CLAIMS["C39"] = (
     "mention the variable",
     "6/C39", TRUSTED + "; coeff is exercised on expanded polynomials only (it is a syntactic query)",
     "TLA+ structural definitions on dumps + TLC trace validation")
+
+CLAIMS["C31"] = (
+    "model_checking",
+    "TLC enumerates 14 functions of 9 inner arguments vanishing at 0, logarithms, roots and rational powers of 1+u, "
+    "reciprocals, arguments shifted by pi, pi/6, pi/4, 1, 2, and products, sums, quotients and compositions of them "
+    "at truncation orders 1, 2, 5, 6, 7 (a seeded subset in the quick tier); TLC computes the Taylor coefficients "
+    "from the defining differential equations (module Series: f' = u'f for exp, f' = u'/u for log, the coupled pair "
+    "for sin/cos and sinh/cosh, u f' = a u' f for powers, integrals of u'/(1+u^2), u'/sqrt(1-u^2), ... for the "
+    "inverse functions) in the exact/modular value domain and compares every coefficient returned by series()",
+    "6/C31", TRUSTED + "; Lambert W is compared with the tabulated coefficients (-k)^(k-1)/k! composed with the "
+    "argument; gamma and Laurent/Puiseux cases (cot, csc at 0) are outside 'analytic at 0' and not generated",
+    "TLA+ power-series semantics from differential equations + TLC trace validation")
